@@ -276,6 +276,9 @@ struct ParamsB {
     n: usize,
     gens: usize,
     parties: Vec<(Ctx, u32)>,
+    /// parties = mult * n: more parties than the barrier's size share it (as std's barrier allows);
+    /// which wait belongs to which generation is then decided by the arrival order
+    mult: usize,
 }
 
 fn gen_b(seed: u64) -> ParamsB {
@@ -283,8 +286,9 @@ fn gen_b(seed: u64) -> ParamsB {
     let rt = RtCfg::gen(&mut r, 3);
     let n = r.range(2, 4) as usize;
     let gens = r.range(1, 3) as usize;
-    let parties = (0..n).map(|_| (Ctx::gen(&mut r), r.below(10) as u32)).collect();
-    ParamsB { rt, n, gens, parties }
+    let mult = *r.pick(&[1usize, 1, 2]);
+    let parties = (0..n * mult).map(|_| (Ctx::gen(&mut r), r.below(10) as u32)).collect();
+    ParamsB { rt, n, gens, parties, mult }
 }
 
 #[allow(clippy::declare_interior_mutable_const)]
@@ -304,6 +308,7 @@ pub fn run_barrier(seed: u64, mut ov: impl FnMut(&mut engine::Cfg)) -> ! {
 
     let b = Arc::new(Barrier::new(p.n));
     let (n, gens) = (p.n as u32, p.gens);
+    let mult = p.mult;
     let mut actors: Vec<Actor> = Vec::new();
     for (pi, (ctx, dally)) in p.parties.iter().cloned().enumerate() {
         let b = b.clone();
@@ -312,7 +317,23 @@ pub fn run_barrier(seed: u64, mut ov: impl FnMut(&mut engine::Cfg)) -> ! {
         actors.push(rt::spawn_actor(ctx, &name, move || {
             for g in 0..gens {
                 rt::dally(dally);
+                if mult > 1 && g > 0 {
+                    // more parties than the barrier's size: a party that runs ahead could pair with
+                    // the others' later waits and be left alone at the end; a round starts when
+                    // everybody is through the previous one
+                    let all = (mult as u32) * n * g as u32;
+                    let mut spins = 0;
+                    while RETURNED[0].load(Ordering::Relaxed) < all {
+                        rt::nap(20_000);
+                        spins += 1;
+                        if spins > 3000 {
+                            break;
+                        }
+                    }
+                }
                 let o = OPS.begin(format!("{} Barrier::wait gen {}", nm, g));
+                // with more parties than the barrier's size everything is counted in slot 0
+                let g = if mult > 1 { 0 } else { g };
                 ARRIVED[g].fetch_add(1, Ordering::Relaxed);
                 let r = b.wait();
                 o.done();
@@ -335,6 +356,16 @@ pub fn run_barrier(seed: u64, mut ov: impl FnMut(&mut engine::Cfg)) -> ! {
     rt::await_actors(&actors, deadline);
     for a in actors.iter_mut() {
         rt::expect_end(a, false);
+    }
+    if mult > 1 {
+        // every generation completes (the number of arrivals is a multiple of n): all waits have
+        // returned (else: hung above) and there is one leader per generation
+        let want = (mult * gens) as u32;
+        let l = LEADERS[0].load(Ordering::Relaxed);
+        if l != want {
+            violation(&format!("{} generations of Barrier({}) shared by {} parties had {} leaders", want, n, mult * n as usize, l));
+        }
+        engine::finish_ok();
     }
     for g in 0..gens {
         let l = LEADERS[g].load(Ordering::Relaxed);
